@@ -70,3 +70,33 @@ impl Args {
         self.0.first().map(|s| s.as_str()).unwrap_or("")
     }
 }
+
+static PROGRESS: std::sync::atomic::AtomicU64 = std::sync::atomic::AtomicU64::new(0);
+
+/// Called at every logged event (and by drivers between programs): the harness is alive.
+pub fn progress() {
+    PROGRESS.fetch_add(1, std::sync::atomic::Ordering::Relaxed);
+}
+
+/// A dispatch that never returns (a dead-locked pool, a lost wake-up) must not hang the check for an hour:
+/// when nothing at all has been logged for `secs` seconds the process reports `HARNESS-HANG` and exits with 102.
+pub fn hang_watchdog(secs: u64) {
+    std::thread::spawn(move || {
+        let mut last = PROGRESS.load(std::sync::atomic::Ordering::Relaxed);
+        let mut quiet = 0u64;
+        loop {
+            std::thread::sleep(std::time::Duration::from_secs(5));
+            let now = PROGRESS.load(std::sync::atomic::Ordering::Relaxed);
+            if now != last {
+                last = now;
+                quiet = 0;
+            } else {
+                quiet += 5;
+                if quiet >= secs {
+                    println!("HARNESS-HANG no event for {} s (events so far: {})", quiet, now);
+                    std::process::exit(102);
+                }
+            }
+        }
+    });
+}
